@@ -133,7 +133,7 @@ func parseTCPFlags(tcpFlags string) ([]string, error) {
 	flags := strings.Split(tcpFlags, ",")
 	result := make([]string, 0, len(flags))
 	for _, flag := range flags {
-		flag = strings.ToLower(flag)
+		flag = asciiToLower(flag)
 		if _, ok := tcpPacketFlagOptions[flag]; !ok {
 			return nil, errTCPflag
 		}
